@@ -736,3 +736,62 @@ def instances(tier):       # noqa: F811
     from .common import watson_spline_bounded_instance
     from .common import bingham_trainer_bounded_instance
     return _inst_before_spline(tier) + [watson_spline_bounded_instance('C08'), bingham_trainer_bounded_instance('C08')]
+
+
+# ----------------------------------------------------------------------------- hard one-hot initialisation of any dtype
+def init_dtype_bounded_instance():
+    """A hard one-hot initial affiliation given as bool / int array is the same affiliation as its float version: the fitted
+    parameters of every mixture trainer agree (the estimators are weighted sums, not logical reductions)."""
+    from pb_bss.distribution import (CACGMMTrainer, CWMMTrainer, CBMMTrainer, GMMTrainer, VMFMMTrainer, GCACGMMTrainer, VMFCACGMMTrainer)
+
+    def make(B):
+        return {'model': B.choose('model', ['cacgmm', 'cwmm', 'cbmm', 'gmm', 'vmfmm', 'gcacgmm', 'vmfcacgmm']), 'dt': B.choose('dt', ['bool', 'int64', 'float32']),
+                'it': B.choose('it', [1, 2, 3]), 'seed': B.choose('seed', list(range(2000))), 'd': B.given('d', np.zeros(1))}
+
+    def call(inp):
+        rng = np.random.RandomState(inp['seed'])
+        model, it = inp['model'], inp['it']
+        F, N, D, K = (1, 12, 3, 2) if model == 'cbmm' else (2, 24, 3, 2)
+        if model == 'cbmm':
+            it = 1
+        lab = rng.randint(0, K, size=(F, N))
+        lab[:, :K] = np.arange(K)
+        if model == 'cbmm':
+            # every class needs more than D frames: with the default max_concentration = inf a rank deficient class scatter
+            # has no finite Bingham ML estimate and the trainer raises
+            lab = np.stack([rng.permutation(np.arange(N) % K) for _ in range(F)])
+        onehot = np.stack([lab == k for k in range(K)], axis=1)
+        cplx = model not in ('gmm', 'vmfmm')
+        y = rng.normal(size=(F, N, D)) + 2.0 * np.eye(D)[lab % D] + (1j * rng.normal(size=(F, N, D)) if cplx else 0)
+        emb = rng.normal(size=(F, N, 3)) + 2.0 * np.eye(3)[lab % 3]
+
+        def fit(init):
+            if model in ('gcacgmm', 'vmfcacgmm'):
+                m = (GCACGMMTrainer if model == 'gcacgmm' else VMFCACGMMTrainer)().fit(y, emb, initialization=init, iterations=it)
+                other = m.gaussian.mean if model == 'gcacgmm' else m.vmf.mean
+                return [np.asarray(m.weight), np.asarray(m.cacg.covariance_eigenvalues), np.asarray(other)]
+            cls = {'cacgmm': CACGMMTrainer, 'cwmm': CWMMTrainer, 'cbmm': CBMMTrainer, 'gmm': GMMTrainer, 'vmfmm': VMFMMTrainer}[model]
+            m = cls().fit(y, initialization=init, iterations=it)
+            if model == 'cacgmm':
+                return [np.asarray(m.weight), np.asarray(m.cacg.covariance_eigenvalues)]
+            if model == 'cwmm':
+                return [np.asarray(m.weight), np.asarray(m.complex_watson.concentration), np.abs(np.asarray(m.complex_watson.mode))]
+            if model == 'cbmm':
+                return [np.asarray(m.weight), np.asarray(m.complex_bingham.covariance_eigenvalues)]
+            if model == 'gmm':
+                return [np.asarray(m.weight), np.asarray(m.gaussian.mean), np.asarray(m.gaussian.covariance)]
+            return [np.asarray(m.weight), np.asarray(m.vmf.mean), np.asarray(m.vmf.concentration)]
+        return {'ref': fit(onehot.astype(np.float64)), 'got': fit(onehot.astype(inp['dt'])), 'model': model}
+
+    def ensures(sp, inp, out):
+        for i, (a, b) in enumerate(zip(out['ref'], out['got'])):
+            yield 'same-fit-as-the-float-initialisation[%s,%d]' % (out['model'], i), bool(a.shape == b.shape and np.allclose(a, b, rtol=1e-4, atol=1e-6))
+
+    return Instance('C08', DN + '*Trainer.fit', 'bounded-one-hot-initialisation-of-any-dtype', make, call, ensures, mode='bounded', bounded_n=60, frame=False)
+
+
+_inst_before_initdtype = instances
+
+
+def instances(tier):       # noqa: F811
+    return _inst_before_initdtype(tier) + [init_dtype_bounded_instance()]
